@@ -43,6 +43,33 @@ def run(ctx):
     r11_counts(ctx)
     c04.r6_replay_buffer(ctx, rule="C09.R1")
     r12_scalar_zero_is_a_feature(ctx)
+    r13_bounds_stored_as_given(ctx)
+
+
+def r13_bounds_stored_as_given(ctx, rule="C09.R13"):
+    """0 is a legal count / bound (Take(0), Slice(x, 0) are empty): a constructor that stores `<bound> or <default>` turns it into 'no bound'."""
+    ctx.rule(rule, "the selection filters store their numeric parameters as given: no constructor of Take / Slice / Reservoir / Where binds an attribute to "
+                   "`<parameter> or <something>` or to a conditional on the parameter's truth")
+    n = 0
+    # (Batch is not in the table: a batch size of 0 MEANS 'do not batch' there, `batch_size or None` is its documented reading)
+    for rel, cname in [(PF, "Take"), (PF, "Slice"), (PF, "Reservoir"), (EF, "Where"), (EF, "Take"), (EF, "Slice"), (EF, "Reservoir")]:
+        if not ctx.model.has_func(rel, f"{cname}.__init__"):
+            continue
+        init = ctx.fn(rel, f"{cname}.__init__")
+        params = {a.arg for a in init.args.args[1:]}
+        for st in [x for x in walk_shallow(init) if isinstance(x, ast.Assign) and any(is_self_attr(t) for t in x.targets)]:
+            n += 1
+            v = st.value
+            by_truth = (isinstance(v, ast.BoolOp) and isinstance(v.op, ast.Or) and isinstance(v.values[0], ast.Name) and v.values[0].id in params) or \
+                       (isinstance(v, ast.IfExp) and isinstance(v.test, ast.Name) and v.test.id in params) or \
+                       (isinstance(v, ast.IfExp) and isinstance(v.test, ast.UnaryOp) and isinstance(v.test.op, ast.Not) and isinstance(v.test.operand, ast.Name) and v.test.operand.id in params)
+            numeric = any(isinstance(x, ast.Name) and x.id in params and any(k in x.id.lower() for k in ("start", "stop", "step", "count", "n_", "size", "min", "max")) or
+                          (isinstance(x, ast.Name) and x.id in ("n", "count")) for x in ast.walk(v))
+            if by_truth and numeric:
+                ctx.ob(rule, rel, f"{cname}.__init__", st, "a count / bound is stored as given (0 is a value, not 'absent')", False, detail={"stored": unparse(v)})
+            else:
+                ctx.ob(rule, rel, f"{cname}.__init__", st, "a count / bound is stored as given (0 is a value, not 'absent')", True, trivial=True)
+    ctx.floor(rule, "attribute bindings in the selection filters' constructors", n, 6)
 
 
 def r12_scalar_zero_is_a_feature(ctx, rule="C09.R12"):
@@ -572,6 +599,7 @@ def r7_sort_keys(ctx):
 
 
 CONTROLS = [
+    ("Slice stores a stop of 0 as no stop", PF, M.replace_stmt("Slice.__init__", M.text_has("self._stop = stop"), "self._stop = stop or None"), "C09.R13"),
     ("a falsy scalar context counts as no feature", EF, M.replace_expr("Where._context_len", "context or context == 0", "context"), "C09.R12"),
     ("falsy seeds fall back to the clock", "coba/random.py", M.replace_expr("CobaRandom.__init__", "seed is None", "not seed"), "C09.R2"),
     ("batching drops a short last batch", EF, M.replace_expr("Batch._batched", "batch", "len(batch) == n", nth=1), "C09.R11"),
